@@ -1,7 +1,7 @@
 # Builds the Coq development (full .vo build) and the extracted model drivers.
 COQDIR := coq
 EXDIR  := coq/extract
-DRIVERS := sections smartlist wikiedit matches builder nodeops template cbuffers weaksearch escape headfrag entfrag
+DRIVERS := sections smartlist wikiedit matches builder nodeops template cbuffers weaksearch escape headfrag entfrag mixfrag
 BINS := $(DRIVERS:%=$(EXDIR)/%_run)
 
 .PHONY: all coq drivers clean
